@@ -54,6 +54,12 @@ theorem LenExt.of_shape {a b : List Section} (h : SameShape a b) : LenExt a b :=
   obtain ⟨s', h1, h2⟩ := h.2 i sec hs
   exact ⟨s', h1, by omega⟩
 
+theorem lenExt_length {a b : List Section} (h : LenExt a b) : a.length ≤ b.length := by
+  rcases Nat.lt_or_ge b.length a.length with hlt | hge
+  · obtain ⟨s', hs', _⟩ := h b.length (a[b.length]) (by simp [hlt])
+    rw [List.getElem?_eq_none (Nat.le_refl _)] at hs'; cases hs'
+  · exact hge
+
 theorem RInB.mono {a b : List Section} (h : LenExt a b) {r : Rgn} (hr : RInB a r) : RInB b r := by
   obtain ⟨sec, h1, h2, h3, h4⟩ := hr
   obtain ⟨s', h5, h6⟩ := h _ _ h1
@@ -79,7 +85,7 @@ structure Grow (s s' : State) : Prop where
   newG  : ∃ newg : List GRef, s'.ghost = s.ghost ++ newg ∧
             ∀ g ∈ newg, g.sec = s.cur ∧ s.curOff ≤ g.offset
   notBoth : s'.relocs.map Reloc.rgn = s.relocs.map Reloc.rgn ∨ s'.ghost = s.ghost
-  tabOk : s'.addrTabSec = s.addrTabSec ∨ (s.addrTabSec = none ∧ s'.addrTabSec = some s.secs.length)
+  tabOk : s'.addrTabSec = s.addrTabSec ∨ (s.addrTabSec = none ∧ s'.addrTabSec = some s.secs.length ∧ s.secs.length < s'.secs.length)
   curOk : s.addrTabSec ≠ some s.cur → s'.addrTabSec ≠ some s'.cur
 
 theorem rinv_grow {s s' : State} (h : RInv s) (hi : Inv s) (g : Grow s s') : RInv s' := by
@@ -119,7 +125,7 @@ theorem rinv_grow {s s' : State} (h : RInv s) (hi : Inv s) (g : Grow s s') : RIn
         rcases hr with hr | hr
         · exact h.notab.1 r hr
         · rw [(hnew r hr).1]; exact h.notab.2
-      rcases g.tabOk with e | ⟨_, e⟩
+      rcases g.tabOk with e | ⟨_, e, _⟩
       · rw [e]; exact hold
       · rw [e]; intro hx; have := Option.some.inj hx; omega
     · exact g.curOk h.notab.2
